@@ -42,7 +42,30 @@ def run(txns, noise=True):
     out['by_category'] = sorted([k[0], k[1], v['count'], ticks(v['total'], flag)] for k, v in r['by_category'].items())
     out['by_month'] = sorted([k, ticks(v, flag)] for k, v in r['by_month'].items())
     out['inexact'] = len(flag)
+    poison(r)
     return out
+
+
+def poison(r):
+    """What a caller may do with the statistics it got back (annotate rows, add tags, clear lists). None of it may reach a
+    LATER analysis: every later call in this process runs after this."""
+    try:
+        for m in r['by_merchant'].values():
+            for row in m.get('transactions', []):
+                if isinstance(row.get('tags'), list):
+                    row['tags'].append('income')
+                row['amount'] = 1e9
+            if isinstance(m.get('tags'), set):
+                m['tags'].update({'transfer', 'investment'})
+            for k in ('payments', 'transactions'):
+                if isinstance(m.get(k), list):
+                    m[k].append(m[k][0] if m[k] else 0)
+        for d in (r.get('by_category'), r.get('by_month')):
+            if isinstance(d, dict):
+                for k in list(d):
+                    d[k] = {'count': -1, 'total': 1e9} if isinstance(d[k], dict) else 1e9
+    except Exception:  # noqa
+        pass
 
 
 def main():
